@@ -25,6 +25,7 @@ impl Report {
     }
     /// what is about to be executed, for the case that the process does not survive it
     fn about_to(&self, text: &str) {
+        crate::watch::beat(0, self.evaluations as usize);
         if !self.progress.is_empty() {
             let _ = std::fs::write(&self.progress, text);
         }
@@ -57,6 +58,7 @@ fn arg<'a>(args: &'a [String], name: &str) -> Option<&'a str> {
 }
 
 pub fn cmd_extra(args: &[String]) {
+    crate::watch::start();
     install_panic_hook();
     let which = args.get(2).map(|s| s.as_str()).unwrap_or("");
     let seed: u64 = arg(args, "--seed").and_then(|s| s.parse().ok()).unwrap_or(1);
@@ -792,8 +794,50 @@ fn fbuild(g: &mut Rng, hk: HKind, log: &mut Vec<String>) -> FM {
         let r = g.below(100) as usize;
         m.reserve(r);
         log.push(format!("reserve {r}"));
+        if g.chance(1, 2) {
+            m.insert(Key::new(500), Val::new(600));
+            log.push("insert 500".into());
+        }
+    }
+    // the tightest headroom there is: shrink while a resize is pending
+    if m.verif_state().old.is_some() && g.chance(1, 3) {
+        m.shrink_to_fit();
+        log.push("shrink_to_fit".into());
     }
     m
+}
+/// slack of the headroom invariant: free budget of the main table minus what moving the rest of the
+/// old table needs (`L + ceil(L/R)`); 0 is the tightest state a history can rest in
+fn slack(m: &FM) -> Option<i64> {
+    let st = m.verif_state();
+    let (l, ..) = st.old?;
+    Some((st.main_cap - st.main_len) as i64 - (l + (l + st.r - 1) / st.r) as i64)
+}
+/// A map resting mid-resize with no slack at all: grow by `reserve`, move one batch, `shrink_to_fit`.
+/// (Found by trying sizes; which sizes work follows from the bucket rounding, see C04.)
+fn ftight_build(hk: HKind, rc: (u64, u64, usize, u64)) -> FM {
+    let (hseed, n, r, extra) = rc;
+    let mut m: FM = FM::with_hasher(VBuild { kind: hk, seed: hseed });
+    for i in 0..n {
+        m.insert(Key::new(i), Val::new(i + 100));
+    }
+    let r = m.capacity() - m.len() + r;
+    m.reserve(r);
+    for i in 0..extra {
+        m.insert(Key::new(500 + i), Val::new(600));
+    }
+    m.shrink_to_fit();
+    m
+}
+fn ftight_find(g: &mut Rng, hk: HKind) -> Option<(u64, u64, usize, u64)> {
+    for _ in 0..400 {
+        let rc = (g.below(50), 9 + g.below(140), 1 + g.below(3) as usize, 1 + g.below(3));
+        let m = ftight_build(hk, rc);
+        if slack(&m) == Some(0) {
+            return Some(rc);
+        }
+    }
+    None
 }
 fn snapshot(m: &FM) -> BTreeMap<u64, (u64, u64)> {
     m.iter().map(|(k, v)| (k.k(), (v.v, v.id))).collect()
@@ -833,22 +877,43 @@ fn consistent(m: &FM) -> Result<(), String> {
 
 fn fault(rep: &mut Report, seed: u64, scale: u64) {
     let opnames = ["insert", "remove", "retain", "drain_filter", "or_insert_with", "and_modify", "replace_entry_with", "reserve", "shrink_to_fit", "clone", "clone_from", "extend", "raw and_replace_entry_with", "get", "eq", "entry insert"];
-    let states = 12 * scale;
+    let states = 40 * scale;
     for st_i in 0..states {
+        // every fourth state rests mid-resize with no headroom to spare
+        let tight = if st_i % 4 == 3 {
+            reset_ids();
+            let mut g = Rng::new(seed.wrapping_mul(31337).wrapping_add(st_i * 17 + 5));
+            let hk = *g.pick(&[HKind::Mul, HKind::Low, HKind::Mul]);
+            let t = ftight_find(&mut g, hk);
+            rep.bump("tight_states", t.is_some() as u64);
+            t
+        } else {
+            None
+        };
         for op in 0..opnames.len() {
-            for kinds in [HASH, EQ, CLONE, CLOSURE, HASH | EQ | CLONE | CLOSURE] {
+            for kinds in [HASH, EQ, CLONE, CLOSURE, HASH | EQ | CLONE | CLOSURE, DROP] {
+                // a panicking destructor: only where the element is dropped by the map itself
+                if kinds == DROP && !matches!(op, 2 | 3) {
+                    continue;
+                }
                 let mut idx = 0i64;
                 loop {
                     reset_ids();
                     let mut g = Rng::new(seed.wrapping_mul(31337).wrapping_add(st_i * 17 + 5));
                     let hk = *g.pick(&[HKind::Mul, HKind::Low, HKind::Mul]);
                     let mut log = vec![format!("hasher {:?}", hk)];
-                    let mut m = fbuild(&mut g, hk, &mut log);
+                    let mut m = match tight {
+                        Some(rc) => {
+                            log.push(format!("{} inserts; reserve capacity-len+{}; insert 500..{}; shrink_to_fit (headroom slack 0)", rc.1, rc.2, 500 + rc.3));
+                            ftight_build(hk, rc)
+                        }
+                        None => fbuild(&mut g, hk, &mut log),
+                    };
                     let mut log_src = vec![];
                     let src = fbuild(&mut g, hk, &mut log_src);
                     let before = snapshot(&m);
                     let before_src = snapshot(&src);
-                    let k = g.below(70);
+                    let k = if tight.is_some() && g.chance(1, 2) { 1000 + g.below(70) } else { g.below(70) };
                     let phase = m.verif_state().old.is_some();
                     log.push(format!("then {} (key {k}) with a panic injected at callback #{idx} of kinds {kinds:#x}", opnames[op]));
                     rep.about_to(&format!("{}\n-- second map (source): {}", log.join("\n"), log_src.join("; ")));
@@ -866,10 +931,14 @@ fn fault(rep: &mut Report, seed: u64, scale: u64) {
                             k.k() % 3 != 0
                         }),
                         3 => {
-                            let d = m.drain_filter(|k, _| {
+                            let mut d = m.drain_filter(|k, _| {
                                 tick(CLOSURE);
                                 k.k() % 2 == 0
                             });
+                            // yield a few, then drop the rest unvisited
+                            for _ in 0..(k % 3) {
+                                let _ = d.next();
+                            }
                             drop(d);
                         }
                         4 => {
@@ -964,6 +1033,46 @@ fn fault(rep: &mut Report, seed: u64, scale: u64) {
                             problems.push(format!("{lost} elements lost, at most the one handed to the closure may be"));
                         }
                     }
+                    // dropping a drain_filter early removes every matching element, even when the
+                    // destructor of one of them panics (the rest is consumed while unwinding)
+                    let mut c09: Vec<String> = vec![];
+                    if op == 3 && (kinds == DROP || r.is_ok()) {
+                        let after = snapshot(&m);
+                        let evens = after.keys().filter(|k| *k % 2 == 0).count();
+                        let odd_lost = before.keys().filter(|k| *k % 2 == 1 && !after.contains_key(k)).count();
+                        if evens > 0 || odd_lost > 0 {
+                            c09.push(format!("after dropping the drain_filter {evens} matching elements are still in the map and {odd_lost} non-matching ones are gone"));
+                        }
+                    }
+                    // headroom: capacity()-len() fresh keys go in without a panic, without a table
+                    // allocation, without capacity() decreasing, and finish any pending resize
+                    let mut c04: Vec<String> = vec![];
+                    if m.capacity() < m.len() {
+                        c04.push(format!("capacity() = {} < len() = {}", m.capacity(), m.len()));
+                    } else if consistent(&m).is_ok() {
+                        let room = m.capacity() - m.len();
+                        let cap0 = m.capacity();
+                        alloc::arm();
+                        let rf = catch_unwind(AssertUnwindSafe(|| {
+                            for i in 0..room as u64 {
+                                m.insert(Key::new(5000 + i), Val::new(0));
+                            }
+                        }));
+                        let (na, _) = alloc::disarm();
+                        if rf.is_err() {
+                            c04.push(format!("inserting capacity()-len() = {room} fresh keys panicked: {}", LAST_PANIC.with(|p| p.borrow().lines().last().unwrap_or("").to_string())));
+                        } else {
+                            if na != 0 {
+                                c04.push(format!("inserting capacity()-len() = {room} fresh keys allocated {na} tables"));
+                            }
+                            if m.capacity() < cap0 {
+                                c04.push(format!("capacity() decreased from {cap0} to {} while filling", m.capacity()));
+                            }
+                            if room >= 1 && m.verif_state().old.is_some() {
+                                c04.push(format!("a resize is still pending after inserting capacity()-len() = {room} fresh keys"));
+                            }
+                        }
+                    }
                     // later operations behave normally
                     let r2 = catch_unwind(AssertUnwindSafe(|| {
                         for i in 0..40 {
@@ -988,14 +1097,28 @@ fn fault(rep: &mut Report, seed: u64, scale: u64) {
                     if live_count() != 0 && !leaked_ok {
                         problems.push(format!("{} objects leaked", live_count()));
                     }
-                    if !problems.is_empty() {
+                    if !c09.is_empty() || !c04.is_empty() || !problems.is_empty() {
                         log.push("-- second map (source):".into());
                         log.extend(log_src);
+                        if !c09.is_empty() {
+                            rep.fail("C09", c09.join("; "), log.join("\n"));
+                        }
+                        if !c04.is_empty() {
+                            rep.fail("C04", c04.join("; "), log.join("\n"));
+                        }
+                        let base_problems = !problems.is_empty();
+                        problems.extend(c09);
+                        problems.extend(c04);
                         let text = problems.join("; ");
+                        if text.contains("entries iterated") || text.contains("not found by get") || text.contains("iterated twice") {
+                            rep.fail("C14", text.clone(), log.join("\n"));
+                        }
                         if text.contains("cached iterator") || text.contains("used after drop") || text.contains("dropped twice") || text.contains("canary") || text.contains("not the injected one") {
                             rep.fail("C05", text.clone(), log.join("\n"));
                         }
-                        rep.fail("C07", text, log.join("\n"));
+                        if base_problems || r.is_err() {
+                            rep.fail("C07", text, log.join("\n"));
+                        }
                     }
                     if rep.samples.len() < 2 && r.is_err() {
                         rep.samples.push(log.join(" ; "));
